@@ -39,7 +39,7 @@ def enc_check(config, codec, hexbm, msg, default_cfg=False):
     if codec == 'latin_1' and len(msg) % 2:
         del kw['encoding']          # the documented default
     if not default_cfg:
-        kw['iso_config'] = config
+        kw['iso_config'] = gen_iso.same_object(config, len(want))
     try:
         got = iso8583.dumps(copy.deepcopy(msg), **kw)
     except Exception as ex:
@@ -69,7 +69,7 @@ def dec_check(config, codec, hexbm, data, default_cfg=False):
     if codec == 'latin_1' and len(data) % 2:
         del kw['encoding']          # the documented default
     if not default_cfg:
-        kw['iso_config'] = config
+        kw['iso_config'] = gen_iso.same_object(config, len(data))
     try:
         got = iso8583.loads(data, **kw)
     except Exception as ex:
@@ -119,7 +119,8 @@ def enc_cases(draw, tier, generated):
     codec = draw(gen_iso.codec_strategy(tier))
     hexbm = draw(st.booleans())
     config = draw(gen_iso.configs()) if generated else PACKAGED
-    msg = draw(gen_iso.messages(config, codec, exact=False, pds_mode='keys', typed_as_str=True))
+    msg = draw(gen_iso.messages(config, codec, exact=False, pds_mode='keys', typed_as_str=True,
+                                pds_big=draw(st.sampled_from([False, False, False, True]))))     # sets that spill over several carriers
     # absent markers: must not set a bit
     unused = [b for b in config if 'DE' + b not in msg and config[b].get('field_processor') != 'PDS']
     for b in draw(st.lists(st.sampled_from(unused), max_size=3, unique=True)) if unused else []:
